@@ -185,19 +185,21 @@ static bool classify_hash(const KV &c, std::vector<std::string> &tags) {
     if (fl & 2) tags.push_back("assign");
     if (fl & 4) tags.push_back("reset");
     if (fl & 8) tags.push_back("named-ctor");
+    if ((fl & 0x100) && tonum(c, "upd") == 1 && (tostr(c, "d1").empty() || tostr(c, "d2").empty())) tags.push_back("NULL-c-string");
     { Bytes a = tobytes(c, "d1"), b = tobytes(c, "d2"); if (std::count(a.begin(), a.end(), 0) || std::count(b.begin(), b.end(), 0)) tags.push_back("data-with-NUL"); }
     return tonum(c, "upd") != 0 || (fl & 15);
 }
 
 template <class X> static void feed(X &x, int upd, const Bytes &d, bool is_hash);
+static bool g_null_cstr;   // per case: an empty text goes to the const char* overloads as NULL (documented: same as the empty string)
 struct HashOps { template <class H> static void upd(H &h, int u, const Bytes &d) {
     std::string s(d.begin(), d.end());
     ascon::byte_array ba(d.begin(), d.end());
-    switch (u) { case 0: { Buf b(d); h.update(b.p, b.n); break; } case 1: h.update(s.c_str()); break; case 2: h.update(ba); break; default: h.update(s); } } };
+    switch (u) { case 0: { Buf b(d); h.update(b.p, b.n); break; } case 1: h.update(d.empty() && g_null_cstr ? (const char *)nullptr : s.c_str()); break; case 2: h.update(ba); break; default: h.update(s); } } };
 struct XofOps { template <class X> static void upd(X &x, int u, const Bytes &d) {
     std::string s(d.begin(), d.end());
     ascon::byte_array ba(d.begin(), d.end());
-    switch (u) { case 0: { Buf b(d); x.absorb(b.p, b.n); break; } case 1: x.absorb(s.c_str()); break; case 2: x.absorb(ba); break; default: x.absorb(s); } } };
+    switch (u) { case 0: { Buf b(d); x.absorb(b.p, b.n); break; } case 1: x.absorb(d.empty() && g_null_cstr ? (const char *)nullptr : s.c_str()); break; case 2: x.absorb(ba); break; default: x.absorb(s); } } };
 
 template <class H, bool A> static std::string run_hash(const KV &c) {
     Bytes d1 = tobytes(c, "d1"), d2 = tobytes(c, "d2");
@@ -260,6 +262,7 @@ template <class X, bool A, size_t N> static std::string run_xof(const KV &c) {
     return "";
 }
 static std::string check_hash(const KV &c) {
+    g_null_cstr = (tonum(c, "flags") & 0x100) != 0;
     switch ((int)tonum(c, "kind")) {
     case 0: return run_hash<ascon::hash, false>(c);
     case 1: return run_hash<ascon::hasha, true>(c);
